@@ -23,11 +23,9 @@ ref" = equality with it), `none` = nothing in play hashes to it.
 namespace Pk.Drv.C18
 open Pk Pk.SMap Pk.RefMap Pk.BlobHTTP
 
-def tbl : Pk.Ref.Tbl := ⟨Gen.refSizes, Gen.testRefTypes, Gen.maxOtherDigestLen⟩
+def tbl : Pk.Ref.Tbl := genTbl
 
-def cfg : Cfg :=
-  { maxEnumerate := Gen.enumDefaultMax, defaultEnum := Gen.enumDefaultSize, maxStat := Gen.maxStatBlobs,
-    maxWait := 30, maxBlob := Gen.maxBlobSize, clientBatch := Gen.clientEnumBatch }
+def cfg : Cfg := genCfg
 
 structure St where
   m : SMap Bytes
